@@ -11,12 +11,66 @@ from .rules import RULES, TIER, load_all
 
 # rules consulted per property; an obligation is reported against a property only when the
 # rule attributes it to that property (Ob.props) – DESIGN Appendix A.
+ALL = "*"   # every registered rule is consulted; an obligation counts for a property only when the rule attributes it (Ob.props)
+
 PROPS: Dict[str, dict] = {
-    "C14": {
-        "rules": ["SAMP-a", "SAMP-b", "SAMP-c", "RNB"],
-        "explanation": "every sampler call site is enumerated; its key argument must be a fresh read of Config.random_key (def-use over the CFG, per loop iteration, exactly one draw per read); Config._key has exactly the three legal writers and the getter splits-and-stores on every path; no other entropy source and no set-iteration over state objects exists in the package",
-        "declined": "equality of final *representations* across different prior activity (the contraction switch is process-global and not reset by set_seed); JAX's PRNG is trusted to be a deterministic function of the key",
-    },
+    "C01": {"rules": ALL,
+            "explanation": "entry-point equivalence of apply_operation (27-cell ROUTE table, RNB); every Matrix-level application is a true sandwich O rho O^dagger (call form and literal einsum strings), product-state applications bind operator factors through the generated einsum strings (ESCGEN summaries compared with their specification for all list lengths, ESCCALL argument pairing); every committing level branch renormalises under operation.renormalize with the normaliser matching the level (NORM/RENORM); dimensions are recomputed and the target resized before the operator is read (PURE-b)",
+            "declined": "numerical equality with an independent dense simulator; the numeric content of the operators (C12)"},
+    "C02": {"rules": ALL,
+            "explanation": "tensor order and bookkeeping order change together (PAIR: Envelope.combine/reorder, CompositeEnvelope.combine, ProductState.reorder); reorder/trace einsum generators equal their specification terms for all list lengths (ESCGEN); trace_out routing (ROUTE, RNB); reorder precedes the product-space partial trace (ESCCALL)",
+            "declined": "numerical equality of the reconstructed joint density matrix"},
+    "C03": {"rules": ALL,
+            "explanation": "apply_operator_vector/matrix summaries: operator index lists are built in operand order, state/output lists in storage order, for all lengths and orders (ESCGEN); every generator call site feeds storage list and operand list in the right slots and reshapes the operator over the operand list (ESCCALL); k-th operand resized to the k-th computed dimension (PURE-b); only the blocks holding operands are gathered (BLOCK); operand types live on a shared enum member (PURE-a)",
+            "declined": "numeric content of composite operators (C12) and the final arrays"},
+    "C04": {"rules": ALL,
+            "explanation": "every projective sampler site is enumerated; the backward slice of its p= argument must be |amplitude|^2 applied before any reduction (Vector) or the real diagonal of a validated partial trace (Matrix) (SAMP-e); measure_vector/measure_matrix generator summaries (ESCGEN); routing of measure (ROUTE, RNB)",
+            "declined": "that outcome frequencies follow p (JAX's sampler is trusted); zero-probability outcomes"},
+    "C05": {"rules": ALL,
+            "explanation": "flags survive every delegation hop (FLAGS); evicted members get index None and a defined state for every member class (BOOK-evict); which subsystems are sampled/destroyed/retired for every flag and argument combination (MEASURE-SET decision table); survivors are conditioned on the drawn outcome and renormalised (COLLAPSE); no functional update is discarded (DISCARD); post-measurement normaliser matches the level (NORM)",
+            "declined": "numerical equality of the survivors' state with the projected reference; 'later use raises' (the code relies on incidental assertion failures)"},
+    "C06": {"rules": ALL,
+            "explanation": "apply_kraus routing cells (ROUTE, RNB); Kraus terms are summed into a zero-initialised accumulator (KRAUS-SUM); every Kraus update is stored at Matrix level, promotion derived through the callee's level transformer (KRAUS-LEVEL); dimension and completeness checks precede every update (KRAUS-VALID); K rho K^dagger form at all sites (SANDWICH); contraction to a ket only under the purity test (PURITY)",
+            "declined": "trace/positivity of the numerical result"},
+    "C07": {"rules": ALL,
+            "explanation": "normaliser agrees with the representation level at every normalisation site (NORM), renormalisation present in every committing branch (RENORM), all-zero results rejected (ZERO), representation tag and stored data move together incl. member propagation (TAG), no discarded functional update (DISCARD)",
+            "declined": "positivity, hermiticity, shape = product of dimensions as numbers"},
+    "C08": {"rules": ALL,
+            "explanation": "vector->matrix expansion conjugates exactly the bra factor in all five expanders (OUTER); tag/data pairing and purity-guarded contraction (TAG/PURITY); the contraction switch guards nothing but contract() calls and contract() writes only state and level (CONTRACT-ONLY); expand/contract routing branches can execute (RNB)",
+            "declined": "eigen-decomposition and tolerance arithmetic; equality of twin runs"},
+    "C09": {"rules": ALL,
+            "explanation": "POVM probabilities are the trace of the same sandwich the function uses for the post-state (SAMP-f); post-state = sandwich normalised by its trace at Matrix level (SANDWICH, SANDWICH-LIT, NORM, POVM-LEVEL); flags forwarded (FLAGS); routing (ROUTE, RNB); operand binding through generated strings (ESCGEN/ESCCALL)",
+            "declined": "numerical probabilities and post-states"},
+    "C10": {"rules": ALL,
+            "explanation": "every dimension commit that may shrink is dominated by a guard equivalent to num_quanta < new_dimensions (linear integer normalisation), success is reported only when dimension and array changed together, padding is zero padding (RESIZE); no write on a path to `return False` (VBC); targets resized to freshly computed operation dimensions (PURE-b); fixed cutoff rules keep every occupied level (BALANCE cutoff clauses)",
+            "declined": "that the automatically estimated cutoff for displacement/squeezing/expressions reproduces the infinite-dimensional result up to the threshold (numerics of expm tails)"},
+    "C11": {"rules": ALL,
+            "explanation": "the beam-splitter arm folds (exact non-commutative polynomial algebra) to expm(i*eta*G) with G Hermitian, number conserving and coupling mode 0 with mode 1; both cutoffs are sum(num_quanta)+k, k>=1; the phase operator folds to diag(exp(i n theta)); ladder operators fold to their definitions (BALANCE, DEFS)",
+            "declined": "the SU(2) action and the Mach-Zehnder probabilities as numbers"},
+    "C12": {"rules": ALL,
+            "explanation": "every member of the four operation-type enums has a dispatch arm, reads only its declared parameters and calls the constructor of its name with parameters bound by name (DISPATCH a-d); every constructor in _math/ops.py is folded symbolically (Gaussian rationals, sqrt2, exact e^{i k pi/4}, trig/exponential atoms of linear forms, ladder-operator words) and compared with its textbook definition for all parameter values; constant gates are checked unitary exactly (DEFS)",
+            "declined": "floating-point accuracy of expm; identities that need analysis beyond the normal form (displaced/squeezed vacuum statistics)"},
+    "C13": {"rules": ALL,
+            "explanation": "per-function obligations whose conjunction is the inductive step of truthful bookkeeping: index refresh follows every removal/creation of product spaces (BOOK-order/create), evicted members are reset (BOOK-evict), a container is never appended to itself and merged handles/envelopes are re-pointed (BOOK-merge), registry and index writers are exactly the designated functions and nothing iterates over the process-wide registry (BOOK-own)",
+            "declined": "absence of staleness along all histories (handles left in _instances[old_uid] are not rebound on merge: recorded by reading, no rule)"},
+    "C14": {"rules": ALL,
+            "explanation": "every sampler call site is enumerated; its key argument must be a fresh read of Config.random_key (def-use over the CFG, per loop iteration, exactly one draw per read); Config._key has exactly the three legal writers and the getter splits-and-stores on every path; no other entropy source and no set-iteration over state objects exists in the package",
+            "declined": "equality of final *representations* across different prior activity (the contraction switch is process-global and not reset by set_seed); JAX's PRNG is trusted to be a deterministic function of the key"},
+    "C15": {"rules": ALL,
+            "explanation": "no method of an operation-type enum (a process-wide singleton) writes to the member, validation precedes update() (PURE-a); compute_dimensions dominates every read of operation.operator and the getter rebuilds the operator on every read (PURE-b); no memoisation in the operation modules (PURE-c); no in-place update of a value that may alias a caller-supplied array (ALIAS-MUT)",
+            "declined": "nothing numerical is involved; alias analysis is intra-procedural over reaching definitions"},
+    "C16": {"rules": ALL,
+            "explanation": "one function, all paths: handled command set equals the documented set; n-ary commands are left folds over args[1:] starting at args[0] with the accumulator on the left; binary commands use (args[0], args[1]); names resolve to context[name](dimensions); every path returns a value or raises; no store into the arguments; no in-place update of a possibly aliased leaf (INTERP, ALIAS-MUT)",
+            "declined": "numeric equality with an independent evaluator"},
+    "C17": {"rules": ALL,
+            "explanation": "on no CFG path of an action method does a physical write (state/dimensions assignment or a state-changing call) precede a raise, a request-validating assert or (resize family) `return False`, with infeasible level combinations pruned (VBC); Kraus validation precedes every update (KRAUS-VALID); all-zero results rejected before the commit (ZERO)",
+            "declined": "that every kind of invalid request is detected at all (missing validations are review findings, not a rule)"},
+    "C18": {"rules": ALL,
+            "explanation": "eq/hash contract of every state class (IDENT-contract); every membership/index/remove/== site is classified by provenance of probe and container: safe if either side can only be a product-space member (state=None) or a non-subsystem object (IDENT-site)",
+            "declined": "none beyond the provenance classes (DESIGN §3 IDENT)"},
+    "C20": {"rules": ALL,
+            "explanation": "arguments of every combine() call derive only from the addressed subsystems and the members of membership-selected product spaces; combine() consumes only selected spaces and its arguments; no loop over all product spaces writes; single-subsystem requests never reach combine() (path-sensitive on len(states)==1 / self.state is None / index kind) (BLOCK)",
+            "declined": "bit-identity of bystander amplitudes as numbers (follows from the blocks not being written)"},
 }
 
 _CACHE: Dict[int, Dict[str, List[Ob]]] = {}
@@ -35,7 +89,8 @@ def collect(repo: Repo, pid: str, tier: str) -> List[Ob]:
     load_all()
     spec = PROPS[pid]
     obs: List[Ob] = []
-    for rn in spec["rules"]:
+    names = list(RULES) if spec["rules"] == ALL else spec["rules"]
+    for rn in names:
         if TIER.get(rn, "quick") == "thorough" and tier != "thorough":
             continue
         obs += [o for o in run_rule(repo, rn) if pid in o.props]
